@@ -2,7 +2,8 @@
 
 use crate::mpdref::wire::{AError, AFrame, BinPos, Wire};
 
-pub const KEYS: &[&str] = &["a", "Foo_bar", "Last-Modified"];
+/// (`a` / `A`: names that differ in letter case only are different names)
+pub const KEYS: &[&str] = &["a", "A", "Foo_bar", "Last-Modified"];
 pub const VALUES: &[&str] = &["", "v", "OK", "list_OK", "ACK [5@0] {} x", "binary: 3", "k: v", "\u{e9}", " lead", "trail ", "a\tb", "\r"];
 
 pub fn binaries(big: bool) -> Vec<Vec<u8>> {
@@ -174,6 +175,19 @@ pub fn long_streams(thorough: bool) -> Vec<(String, Vec<Wire>)> {
             out.push((format!("{n} short lines crossing {want}"), vec![Wire::Single(f)]));
         }
     }
+    // a response whose encoded length is EXACTLY the buffer size or one of its doublings, as the
+    // whole stream and behind a shorter response (a read that fills the buffer to the last byte,
+    // followed by nothing)
+    for &target in sizes {
+        for delta in [0i64, -1, 1] {
+            let total = (target as i64 + delta) as usize;
+            let exact = |len: usize| AFrame { fields: vec![("a".into(), "y".repeat(len - "a: \nOK\n".len()))], binary: None };
+            out.push((format!("one response of exactly {total} bytes"), vec![Wire::Single(exact(total))]));
+            if delta == 0 {
+                out.push((format!("a 1904-byte response, then one of exactly {total} bytes"), vec![Wire::Single(exact(1904)), Wire::Single(exact(total))]));
+            }
+        }
+    }
     let bins: &[usize] = if thorough { &[4000, 4085, 4096, 4100, 4200, 8100, 8192, 8300] } else { &[4000, 4096, 4200, 8192] };
     for &b in bins {
         let payload: Vec<u8> = (0..b).map(|i| (i % 251) as u8).collect();
@@ -236,4 +250,24 @@ pub fn multi_binary_streams(max_len: usize) -> Vec<(String, Vec<Wire>)> {
         }
     }
     out
+}
+
+/// A connection history with many distinct field names: a first response whose single frame has
+/// `prior` one-field lines with pairwise distinct names, then a list response of three frames with
+/// `fresh` further names. (Whatever the library remembers about names it has seen - an interning
+/// cache, its bound, its eviction - must not show in what is decoded.)
+pub fn many_names_history(prior: usize, fresh: usize) -> Vec<Wire> {
+    let name = |i: usize| {
+        let mut n = String::from("n");
+        let mut x = i;
+        for _ in 0..3 {
+            n.push((b'a' + (x % 26) as u8) as char);
+            x /= 26;
+        }
+        n
+    };
+    let first = AFrame { fields: (0..prior).map(|i| (name(i), format!("v{i}"))).collect(), binary: None };
+    let per = fresh.div_ceil(3).max(1);
+    let frames: Vec<AFrame> = (0..3).map(|f| AFrame { fields: (f * per..((f + 1) * per).min(fresh)).map(|i| (name(prior + i), format!("w{i}"))).collect(), binary: None }).collect();
+    vec![Wire::Single(first), Wire::List(frames), Wire::Single(AFrame::new(&[("a", "after")]))]
 }
